@@ -3,269 +3,40 @@ From Darr Require Import Base Gen_frames Sched.
 Import ListNotations.
 Open Scope Z_scope.
 
-Definition active (g : gstate) : nat := match g with GActive _ _ => 1 | _ => 0 end.
+Definition active (g : gstate) : nat := match g with GActive _ => 1 | _ => 0 end.
 Fixpoint count_active (l : list gstate) : nat :=
   match l with [] => 0 | g :: t => active g + count_active t end.
-(* the map a generator reads from is open *)
-Definition gmap_open (open : list nat) (g : gstate) : Prop :=
-  match g with GActive m _ => In m open | _ => True end.
 
-(* The protocol invariant, with `k` users that are in the middle of an access and one map `ex`
-   whose last holder may just have finished:
+(* The protocol invariant, with `k` users that are in the middle of an access:
    - the user count is exact;
-   - every active generator's map is open (memory safety);
-   - the cached map exists only while it has users, and is open;
-   - every open map is the cached one or is still held by a generator (no leak). *)
-Definition SInvX (k : nat) (ex : option nat) (s : sched) : Prop :=
+   - the cached map exists only while it has users; it is then the ONLY open map and is mapped
+     at exactly the present length of the file (so nothing read through it lies beyond the file);
+   - without a cached map nothing is open (no leak). *)
+Definition SInvX (k : nat) (s : sched) : Prop :=
   sc_users s = (k + count_active (sc_gens s) + length (sc_ctx s))%nat /\
-  Forall (gmap_open (sc_open s)) (sc_gens s) /\
   match sc_cache s with
-  | Some m => (0 < sc_users s)%nat /\ In m (sc_open s)
-  | None => sc_users s = 0%nat
-  end /\
-  (forall m, In m (sc_open s) -> ex = Some m \/ sc_cache s = Some m \/ held m (sc_gens s) = true).
-Definition SInv (s : sched) : Prop := SInvX 0 None s.
+  | Some m => (0 < sc_users s)%nat /\ sc_open s = [(m, sc_len s)]
+  | None => sc_users s = 0%nat /\ sc_open s = []
+  end.
+Definition SInv (s : sched) : Prop := SInvX 0 s.
 
 (* ---------- list facts ---------- *)
 Lemma count_replace : forall l g x old, nth_error l g = Some old ->
   (count_active (replace_nth g x l) + active old = count_active l + active x)%nat.
 Proof.
   induction l as [|y l IH]; intros g x old H; destruct g; cbn in *; try discriminate.
-  - inversion H; subst. lia.
+  - injection H as <-. lia.
   - specialize (IH _ x _ H). lia.
 Qed.
 
-Lemma Forall_replace : forall (P : gstate -> Prop) l g x, Forall P l -> P x -> Forall P (replace_nth g x l).
-Proof.
-  intros P l. induction l as [|y l IH]; intros g x Hl Hx; destruct g; cbn; try constructor;
-    inversion Hl; subst; try assumption. apply IH; assumption.
-Qed.
-
 Lemma count_app : forall a b, count_active (a ++ b) = (count_active a + count_active b)%nat.
-Proof. induction a as [|x a IH]; intros b; cbn; [reflexivity|]. rewrite IH. lia. Qed.
+Proof. induction a as [|x a IH]; intros b; cbn; [reflexivity|rewrite IH; lia]. Qed.
 
-Lemma mem_in : forall m l, In m l -> mem_nat m l = true.
+Lemma nth_active_pos : forall l g r, nth_error l g = Some (GActive r) -> (0 < count_active l)%nat.
 Proof.
-  induction l as [|y l IH]; intros H; [destruct H|]. cbn. destruct H as [->|H].
-  - rewrite Nat.eqb_refl. reflexivity.
-  - rewrite (IH H). apply orb_true_r.
-Qed.
-
-Lemma in_remove : forall x m l, In x (remove_nat m l) <-> In x l /\ x <> m.
-Proof.
-  induction l as [|y l IH]; cbn; [tauto|]. destruct (Nat.eqb m y) eqn:E.
-  - apply Nat.eqb_eq in E. subst y. rewrite IH. split; [tauto|]. intros [[->|H] Hn]; [contradiction|tauto].
-  - apply Nat.eqb_neq in E. cbn. rewrite IH. split; [intros [->|[H Hn]]; [split; [tauto|congruence]|tauto]|tauto].
-Qed.
-
-Lemma held_count : forall m l, held m l = true -> (0 < count_active l)%nat.
-Proof.
-  unfold held. induction l as [|g l IH]; cbn; [discriminate|]. intros H. apply orb_true_iff in H. destruct H as [H|H].
-  - destruct g; cbn in *; try discriminate. lia.
-  - specialize (IH H). lia.
-Qed.
-
-Lemma held_app : forall m a b, held m (a ++ b) = held m a || held m b.
-Proof. intros. unfold held. apply existsb_app. Qed.
-
-(* replacing a generator state: who holds what *)
-Lemma held_replace : forall m l g x old, nth_error l g = Some old ->
-  held m (replace_nth g x l) = true -> holds_b m x = true \/ held m l = true.
-Proof.
-  unfold held. induction l as [|y l IH]; intros g x old H Hh; destruct g; cbn in *; try discriminate.
-  - apply orb_true_iff in Hh. destruct Hh as [Hh|Hh]; [left; exact Hh|right]. rewrite Hh. apply orb_true_r.
-  - apply orb_true_iff in Hh. destruct Hh as [Hh|Hh]; [right; rewrite Hh; reflexivity|].
-    destruct (IH _ _ _ H Hh) as [A|A]; [left; exact A|right; rewrite A; apply orb_true_r].
-Qed.
-Lemma held_replace_keep : forall m l g x old, nth_error l g = Some old ->
-  held m l = true -> holds_b m old = false \/ holds_b m x = true -> held m (replace_nth g x l) = true.
-Proof.
-  unfold held. induction l as [|y l IH]; intros g x old H Hh Hk; destruct g; cbn in *; try discriminate.
-  - inversion H; subst y. apply orb_true_iff in Hh. destruct Hk as [Hk|Hk].
-    + rewrite Hk in Hh. destruct Hh as [Hh|Hh]; [discriminate|]. rewrite Hh. apply orb_true_r.
-    + rewrite Hk. reflexivity.
-  - apply orb_true_iff in Hh. destruct Hh as [Hh|Hh]; [rewrite Hh; reflexivity|].
-    rewrite (IH _ _ _ H Hh Hk). apply orb_true_r.
-Qed.
-Lemma held_replace_self : forall m l g old r, nth_error l g = Some old -> held m (replace_nth g (GActive m r) l) = true.
-Proof.
-  unfold held. induction l as [|y l IH]; intros g old r H; destruct g; cbn in *; try discriminate.
-  - rewrite Nat.eqb_refl. reflexivity.
-  - rewrite (IH _ _ r H). apply orb_true_r.
-Qed.
-
-Lemma nth_active_pos : forall l g m r, nth_error l g = Some (GActive m r) -> (0 < count_active l)%nat.
-Proof.
-  induction l as [|y l IH]; intros g m r H; destruct g; cbn in *; try discriminate.
-  - inversion H; subst. cbn. lia.
-  - specialize (IH _ _ _ H). lia.
-Qed.
-
-Lemma gmap_open_mono : forall o1 o2 l, (forall m, In m o1 -> In m o2) ->
-  Forall (gmap_open o1) l -> Forall (gmap_open o2) l.
-Proof.
-  intros o1 o2 l Hs H. eapply Forall_impl; [|exact H]. intros g Hg. destruct g; cbn in *; auto.
-Qed.
-
-Lemma inactive_gmap : forall o l, count_active l = 0%nat -> Forall (gmap_open o) l.
-Proof.
-  induction l as [|g l IH]; intros H; constructor.
-  - destruct g; cbn in *; try exact I. lia.
-  - apply IH. destruct g; cbn in H; lia.
-Qed.
-
-(* ---------- acquire / release / finishing ---------- *)
-Lemma acquire_inv : forall s k ex, SInvX k ex s ->
-  SInvX (S k) ex (snd (acquire s)) /\
-  sc_cache (snd (acquire s)) = Some (fst (acquire s)) /\ In (fst (acquire s)) (sc_open (snd (acquire s))) /\
-  sc_gens (snd (acquire s)) = sc_gens s /\ sc_ctx (snd (acquire s)) = sc_ctx s /\
-  sc_data (snd (acquire s)) = sc_data s /\ sc_len (snd (acquire s)) = sc_len s.
-Proof.
-  intros s k ex (Hu & Hg & Hc & Hl). unfold acquire. destruct (sc_cache s) as [m|] eqn:E; cbn [fst snd].
-  - destruct Hc as [Hp Hin]. unfold SInvX. cbn [sc_users sc_gens sc_ctx sc_open sc_cache sc_data sc_len].
-    repeat split; try assumption; try reflexivity; try lia.
-  - unfold SInvX. cbn [sc_users sc_gens sc_ctx sc_open sc_cache sc_data sc_len].
-    repeat split; try reflexivity; try lia; try (left; reflexivity).
-    + eapply gmap_open_mono; [|exact Hg]. intros x Hx. right. exact Hx.
-    + intros x [<-|Hx]; [right; left; reflexivity|].
-      destruct (Hl x Hx) as [A|[A|A]]; [left; exact A|discriminate|right; right; exact A].
-Qed.
-
-Lemma release_inv : forall s k ex, SInvX (S k) ex s -> SInvX k ex (release s).
-Proof.
-  intros s k ex (Hu & Hg & Hc & Hl). unfold release. destruct (sc_users s) as [|[|u]] eqn:Eu; [lia| |].
-  - (* the last user: close *)
-    assert (k = 0%nat /\ count_active (sc_gens s) = 0%nat /\ length (sc_ctx s) = 0%nat) as (-> & Hcnt & Hlen) by lia.
-    destruct (sc_cache s) as [m|] eqn:E; [|lia].
-    unfold SInvX. cbn [sc_users sc_gens sc_ctx sc_open sc_cache]. repeat split; try lia.
-    + apply inactive_gmap. exact Hcnt.
-    + intros x Hx. apply in_remove in Hx. destruct Hx as [Hx Hn].
-      destruct (Hl x Hx) as [A|[A|A]]; [left; exact A|congruence|right; right; exact A].
-  - unfold SInvX. cbn [sc_users sc_gens sc_ctx sc_open sc_cache]. repeat split; try assumption; try lia.
-    destruct (sc_cache s); [destruct Hc; split; [lia|assumption]|lia].
-Qed.
-
-Lemma held_in : forall m r l, In (GActive m r) l -> held m l = true.
-Proof.
-  unfold held. intros m r l H. apply existsb_exists. exists (GActive m r). split; [exact H|]. cbn. apply Nat.eqb_refl.
-Qed.
-
-Lemma drop_ref_inv : forall s k m, SInvX k (Some m) s -> SInvX k None (drop_ref s m).
-Proof.
-  intros s k m (Hu & Hg & Hc & Hl). unfold drop_ref.
-  destruct ((match sc_cache s with Some c => Nat.eqb c m | None => false end) || held m (sc_gens s)) eqn:E.
-  - unfold SInvX. repeat split; try assumption. intros x Hx. destruct (Hl x Hx) as [A|[A|A]].
-    + injection A as <-. apply orb_true_iff in E. destruct E as [E|E].
-      * destruct (sc_cache s) as [c|]; [|discriminate]. apply Nat.eqb_eq in E. subst c. right; left; reflexivity.
-      * right; right; exact E.
-    + right; left; exact A.
-    + right; right; exact A.
-  - apply orb_false_iff in E. destruct E as [Ec Eh].
-    unfold SInvX, set_open. cbn [sc_users sc_gens sc_ctx sc_open sc_cache]. repeat split.
-    + exact Hu.
-    + apply Forall_forall. intros g Hgin. rewrite Forall_forall in Hg. specialize (Hg g Hgin).
-      destruct g as [fr|m' r|]; cbn in *; auto. apply in_remove. split; [exact Hg|]. intros ->.
-      rewrite (held_in _ _ _ Hgin) in Eh. discriminate.
-    + destruct (sc_cache s) as [c|]; [|exact Hc]. destruct Hc as [Hp Hin]. split; [exact Hp|].
-      apply in_remove. split; [exact Hin|]. intros ->. rewrite Nat.eqb_refl in Ec. discriminate.
-    + intros x Hx. apply in_remove in Hx. destruct Hx as [Hx Hn]. destruct (Hl x Hx) as [A|[A|A]].
-      * congruence.
-      * right; left; exact A.
-      * right; right; exact A.
-Qed.
-
-Lemma done_inv : forall s k g m rest, SInvX k None s -> nth_error (sc_gens s) g = Some (GActive m rest) ->
-  SInvX (S k) (Some m) (set_gens s (replace_nth g GDone (sc_gens s))).
-Proof.
-  intros s k g m rest (Hu & Hg & Hc & Hl) Hn. unfold SInvX, set_gens. cbn [sc_users sc_gens sc_ctx sc_open sc_cache].
-  pose proof (count_replace _ g GDone _ Hn) as Hcr. cbn [active] in Hcr. repeat split.
-  - lia.
-  - apply Forall_replace; [exact Hg|exact I].
-  - exact Hc.
-  - intros x Hx. destruct (Hl x Hx) as [A|[A|A]]; [discriminate|right; left; exact A|].
-    destruct (Nat.eq_dec x m) as [->|Hne]; [left; reflexivity|]. right; right.
-    apply (held_replace_keep x _ g GDone _ Hn A). left. cbn. apply Nat.eqb_neq. congruence.
-Qed.
-
-Lemma newdone_inv : forall s k ex g fr, SInvX k ex s -> nth_error (sc_gens s) g = Some (GNew fr) ->
-  SInvX k ex (set_gens s (replace_nth g GDone (sc_gens s))).
-Proof.
-  intros s k ex g fr (Hu & Hg & Hc & Hl) Hn. unfold SInvX, set_gens. cbn [sc_users sc_gens sc_ctx sc_open sc_cache].
-  pose proof (count_replace _ g GDone _ Hn) as Hcr. cbn [active] in Hcr. repeat split.
-  - lia.
-  - apply Forall_replace; [exact Hg|exact I].
-  - exact Hc.
-  - intros x Hx. destruct (Hl x Hx) as [A|[A|A]]; [left; exact A|right; left; exact A|right; right].
-    apply (held_replace_keep x _ g GDone _ Hn A). left. reflexivity.
-Qed.
-
-Lemma activate_inv : forall s k ex g fr m frames, SInvX (S k) ex s ->
-  nth_error (sc_gens s) g = Some (GNew fr) -> In m (sc_open s) ->
-  SInvX k ex (set_gens s (replace_nth g (GActive m frames) (sc_gens s))).
-Proof.
-  intros s k ex g fr m frames (Hu & Hg & Hc & Hl) Hn Hin. unfold SInvX, set_gens. cbn [sc_users sc_gens sc_ctx sc_open sc_cache].
-  pose proof (count_replace _ g (GActive m frames) _ Hn) as Hcr. cbn [active] in Hcr. repeat split.
-  - lia.
-  - apply Forall_replace; [exact Hg|exact Hin].
-  - exact Hc.
-  - intros x Hx. destruct (Hl x Hx) as [A|[A|A]]; [left; exact A|right; left; exact A|right; right].
-    apply (held_replace_keep x _ g (GActive m frames) _ Hn A). left. reflexivity.
-Qed.
-
-Lemma chunk_inv : forall s k ex g m r r', SInvX k ex s -> nth_error (sc_gens s) g = Some (GActive m r) ->
-  SInvX k ex (set_gens s (replace_nth g (GActive m r') (sc_gens s))).
-Proof.
-  intros s k ex g m r r' (Hu & Hg & Hc & Hl) Hn. unfold SInvX, set_gens. cbn [sc_users sc_gens sc_ctx sc_open sc_cache].
-  pose proof (count_replace _ g (GActive m r') _ Hn) as Hcr. cbn [active] in Hcr. repeat split.
-  - lia.
-  - apply Forall_replace; [exact Hg|]. rewrite Forall_forall in Hg. exact (Hg _ (nth_error_In _ _ Hn)).
-  - exact Hc.
-  - intros x Hx. destruct (Hl x Hx) as [A|[A|A]]; [left; exact A|right; left; exact A|right; right].
-    destruct (Nat.eq_dec x m) as [->|Hne].
-    + apply (held_replace_self m _ g _ r' Hn).
-    + apply (held_replace_keep x _ g (GActive m r') _ Hn A). left. cbn. apply Nat.eqb_neq. congruence.
-Qed.
-
-Lemma start_inv : forall s k ex fr, SInvX k ex s -> SInvX k ex (set_gens s (sc_gens s ++ [GNew fr])).
-Proof.
-  intros s k ex fr (Hu & Hg & Hc & Hl). unfold SInvX, set_gens. cbn [sc_users sc_gens sc_ctx sc_open sc_cache].
-  rewrite count_app. cbn [count_active active]. repeat split.
-  - lia.
-  - apply Forall_app. split; [exact Hg|]. constructor; [exact I|constructor].
-  - exact Hc.
-  - intros x Hx. destruct (Hl x Hx) as [A|[A|A]]; [left; exact A|right; left; exact A|right; right].
-    rewrite held_app, A. reflexivity.
-Qed.
-
-Lemma data_inv : forall s k ex c, SInvX k ex s -> SInvX k ex (set_data s c).
-Proof. intros s k ex c H. exact H. Qed.
-
-Lemma ctx_push : forall s k ex m, SInvX (S k) ex s -> SInvX k ex (set_ctx s (m :: sc_ctx s)).
-Proof.
-  intros s k ex m (Hu & Hg & Hc & Hl). unfold SInvX, set_ctx. cbn [sc_users sc_gens sc_ctx sc_open sc_cache length].
-  repeat split; try assumption. lia.
-Qed.
-Lemma ctx_pop : forall s k ex m rest, SInvX k ex s -> sc_ctx s = m :: rest -> SInvX (S k) ex (set_ctx s rest).
-Proof.
-  intros s k ex m rest (Hu & Hg & Hc & Hl) Hx. unfold SInvX, set_ctx. cbn [sc_users sc_gens sc_ctx sc_open sc_cache].
-  rewrite Hx in Hu. cbn [length] in Hu. repeat split; try assumption. lia.
-Qed.
-
-(* a generator finishes: leave the context, drop the reference *)
-Lemma finish_inv : forall s g m rest, SInv s -> nth_error (sc_gens s) g = Some (GActive m rest) ->
-  SInv (drop_ref (release (set_gens s (replace_nth g GDone (sc_gens s)))) m).
-Proof.
-  intros s g m rest HI Hn. apply drop_ref_inv, release_inv. exact (done_inv s 0 g m rest HI Hn).
-Qed.
-
-Lemma advance_safe : forall s g m rest, SInv s -> nth_error (sc_gens s) g = Some (GActive m rest) ->
-  SInv (snd (advance_active s g m rest)) /\ fst (advance_active s g m rest) <> OCrash.
-Proof.
-  intros s g m rest HI Hn. unfold advance_active. destruct rest as [|[a b] rest'].
-  - cbn [fst snd]. split; [exact (finish_inv s g m [] HI Hn)|discriminate].
-  - destruct HI as (Hu & Hg & Hc & Hl). pose proof Hg as Hg'. rewrite Forall_forall in Hg'.
-    pose proof (Hg' _ (nth_error_In _ _ Hn)) as Hin. cbn in Hin. rewrite (mem_in _ _ Hin). cbn [fst snd].
-    split; [|discriminate]. exact (chunk_inv s 0 None g m _ rest' (conj Hu (conj Hg (conj Hc Hl))) Hn).
+  induction l as [|y l IH]; intros g r H; destruct g; cbn in *; try discriminate.
+  - injection H as ->. cbn. lia.
+  - specialize (IH _ _ H). lia.
 Qed.
 
 Lemma nth_replace_same : forall (l : list gstate) g x old, nth_error l g = Some old ->
@@ -274,6 +45,131 @@ Proof.
   induction l as [|y l IH]; intros g x old H; destruct g; cbn in *; try discriminate; [reflexivity|].
   exact (IH _ _ _ H).
 Qed.
+
+Lemma map_len_hd : forall m n t, map_len m ((m, n) :: t) = Some n.
+Proof. intros. cbn. rewrite Nat.eqb_refl. reflexivity. Qed.
+
+Lemma remove_single : forall m n, remove_nat m [(m, n)] = [].
+Proof. intros. cbn. rewrite Nat.eqb_refl. reflexivity. Qed.
+
+(* ---------- the protocol steps ---------- *)
+Lemma acquire_inv : forall s k, SInvX k s ->
+  SInvX (S k) (snd (acquire s)) /\ sc_cache (snd (acquire s)) = Some (fst (acquire s)) /\
+  sc_gens (snd (acquire s)) = sc_gens s /\ sc_ctx (snd (acquire s)) = sc_ctx s /\
+  sc_data (snd (acquire s)) = sc_data s /\ sc_len (snd (acquire s)) = sc_len s.
+Proof.
+  intros s k (Hu & Hc). unfold acquire. destruct (sc_cache s) as [m|] eqn:Ec; cbn [fst snd].
+  - destruct Hc as [Hp Ho]. unfold SInvX. cbn [sc_users sc_gens sc_ctx sc_open sc_cache sc_len sc_data].
+    repeat split; try reflexivity; try lia. exact Ho.
+  - destruct Hc as [H0 Ho]. unfold SInvX. cbn [sc_users sc_gens sc_ctx sc_open sc_cache sc_len sc_data].
+    repeat split; try reflexivity; try lia. rewrite Ho. reflexivity.
+Qed.
+
+Lemma release_inv : forall s k, SInvX (S k) s -> SInvX k (release s).
+Proof.
+  intros s k (Hu & Hc). unfold release. destruct (sc_users s) as [|[|u]] eqn:Eu; [lia| |].
+  - (* the last user: close *)
+    destruct (sc_cache s) as [m|] eqn:Ec.
+    + destruct Hc as [_ Ho]. unfold SInvX. cbn [sc_users sc_gens sc_ctx sc_open sc_cache sc_len].
+      split; [lia|]. split; [reflexivity|]. rewrite Ho. apply remove_single.
+    + destruct Hc as [H0 _]. lia.
+  - destruct (sc_cache s) as [m|] eqn:Ec.
+    + destruct Hc as [_ Ho]. unfold SInvX. cbn [sc_users sc_gens sc_ctx sc_open sc_cache sc_len].
+      split; [lia|]. split; [lia|exact Ho].
+    + destruct Hc as [H0 _]. lia.
+Qed.
+
+Lemma read_ok_inv : forall s k hi, SInvX k s -> sc_cache s <> None -> read_ok s hi = true.
+Proof.
+  intros s k hi (Hu & Hc) Hn. unfold read_ok, cur_maplen. destruct (sc_cache s) as [m|]; [|congruence].
+  destruct Hc as [_ Ho]. rewrite Ho, map_len_hd. apply Z.leb_le. lia.
+Qed.
+
+Lemma cur_maplen_inv : forall s k, SInvX k s -> sc_cache s <> None -> cur_maplen s = Some (sc_len s).
+Proof.
+  intros s k (Hu & Hc) Hn. unfold cur_maplen. destruct (sc_cache s) as [m|]; [|congruence].
+  destruct Hc as [_ Ho]. rewrite Ho. apply map_len_hd.
+Qed.
+
+Lemma gens_inv : forall s k g x old, SInvX k s -> nth_error (sc_gens s) g = Some old -> active x = active old ->
+  SInvX k (set_gens s (replace_nth g x (sc_gens s))).
+Proof.
+  intros s k g x old (Hu & Hc) Hn Ha. unfold SInvX, set_gens. cbn [sc_users sc_gens sc_ctx sc_open sc_cache sc_len].
+  pose proof (count_replace _ _ x _ Hn). split; [lia|exact Hc].
+Qed.
+
+(* an active generator finishes (it is still counted as a user: one more pending release) *)
+Lemma done_inv : forall s k g rest, SInvX k s -> nth_error (sc_gens s) g = Some (GActive rest) ->
+  SInvX (S k) (set_gens s (replace_nth g GDone (sc_gens s))).
+Proof.
+  intros s k g rest (Hu & Hc) Hn. unfold SInvX, set_gens. cbn [sc_users sc_gens sc_ctx sc_open sc_cache sc_len].
+  pose proof (count_replace _ _ GDone _ Hn). cbn [active] in *. split; [lia|exact Hc].
+Qed.
+
+(* a generator that has just entered the context becomes active: the pending user is now its own *)
+Lemma activate_inv : forall s k g fr frames, SInvX (S k) s -> nth_error (sc_gens s) g = Some (GNew fr) ->
+  SInvX k (set_gens s (replace_nth g (GActive frames) (sc_gens s))).
+Proof.
+  intros s k g fr frames (Hu & Hc) Hn. unfold SInvX, set_gens. cbn [sc_users sc_gens sc_ctx sc_open sc_cache sc_len].
+  pose proof (count_replace _ _ (GActive frames) _ Hn). cbn [active] in *. split; [lia|exact Hc].
+Qed.
+
+Lemma newdone_inv : forall s k g fr, SInvX k s -> nth_error (sc_gens s) g = Some (GNew fr) ->
+  SInvX k (set_gens s (replace_nth g GDone (sc_gens s))).
+Proof. intros s k g fr HI Hn. exact (gens_inv s k g GDone _ HI Hn eq_refl). Qed.
+
+Lemma start_inv : forall s k fr, SInvX k s -> SInvX k (set_gens s (sc_gens s ++ [GNew fr])).
+Proof.
+  intros s k fr (Hu & Hc). unfold SInvX, set_gens. cbn [sc_users sc_gens sc_ctx sc_open sc_cache sc_len].
+  rewrite count_app. cbn. split; [lia|exact Hc].
+Qed.
+
+Lemma data_inv : forall s k c, SInvX k s -> SInvX k (set_data s c).
+Proof. intros s k c H. exact H. Qed.
+
+Lemma ctx_push : forall s k m, SInvX (S k) s -> SInvX k (set_ctx s (m :: sc_ctx s)).
+Proof.
+  intros s k m (Hu & Hc). unfold SInvX, set_ctx. cbn [sc_users sc_gens sc_ctx sc_open sc_cache sc_len length].
+  split; [lia|exact Hc].
+Qed.
+
+Lemma ctx_pop : forall s k m rest, SInvX k s -> sc_ctx s = m :: rest -> SInvX (S k) (set_ctx s rest).
+Proof.
+  intros s k m rest (Hu & Hc) E. unfold SInvX, set_ctx. cbn [sc_users sc_gens sc_ctx sc_open sc_cache sc_len].
+  rewrite E in Hu. cbn [length] in Hu. split; [lia|exact Hc].
+Qed.
+
+Lemma active_cached : forall s g rest, SInv s -> nth_error (sc_gens s) g = Some (GActive rest) -> sc_cache s <> None.
+Proof.
+  intros s g rest (Hu & Hc) Hn E. rewrite E in Hc. destruct Hc as [H0 _].
+  pose proof (nth_active_pos _ _ _ Hn). lia.
+Qed.
+
+Lemma finish_inv : forall s g rest, SInv s -> nth_error (sc_gens s) g = Some (GActive rest) ->
+  SInv (release (set_gens s (replace_nth g GDone (sc_gens s)))).
+Proof. intros s g rest HI Hn. apply release_inv. exact (done_inv s 0 g rest HI Hn). Qed.
+
+(* what an active generator's step returns: the frame clipped to the present length, read now *)
+Lemma advance_chunk : forall s g a b rest, SInv s -> nth_error (sc_gens s) g = Some (GActive ((a, b) :: rest)) ->
+  fst (advance_active s g ((a, b) :: rest)) =
+    OChunk (Z.min a (sc_len s)) (Z.min b (sc_len s)) (chunk_obs (sc_data s) (Z.min a (sc_len s)) (Z.min b (sc_len s))).
+Proof.
+  intros s g a b rest HI Hn. pose proof (active_cached s g _ HI Hn) as Hc. unfold advance_active.
+  rewrite (read_ok_inv s 0 b HI Hc), (cur_maplen_inv s 0 HI Hc). reflexivity.
+Qed.
+
+Lemma advance_safe : forall s g rest, SInv s -> nth_error (sc_gens s) g = Some (GActive rest) ->
+  SInv (snd (advance_active s g rest)) /\ fst (advance_active s g rest) <> OCrash.
+Proof.
+  intros s g rest HI Hn. destruct rest as [|[a b] rest'].
+  - cbn [advance_active fst snd]. split; [exact (finish_inv s g [] HI Hn)|discriminate].
+  - pose proof (active_cached s g _ HI Hn) as Hc. unfold advance_active.
+    rewrite (read_ok_inv s 0 b HI Hc). cbn [fst snd]. split; [|discriminate].
+    exact (gens_inv s 0 g (GActive rest') _ HI Hn eq_refl).
+Qed.
+
+Lemma acquired_cached : forall s k, SInvX k s -> sc_cache (snd (acquire s)) <> None.
+Proof. intros s k HI. destruct (acquire_inv s k HI) as (_ & C & _). rewrite C. discriminate. Qed.
 
 Theorem sched_step_safe : forall s a, SInv s ->
   SInv (snd (sched_step s a)) /\ fst (sched_step s a) <> OCrash.
@@ -284,59 +180,49 @@ Proof.
     cbn [fst snd]. split; [|discriminate]. apply start_inv; exact HI.
   - (* advance *)
     destruct (nth_error (sc_gens s) g) as [gs|] eqn:En; [|split; [exact HI|discriminate]].
-    destruct gs as [[[[[c so] sto] eno] fl]|m rest|].
+    destruct gs as [[[[[c so] sto] eno] fl]|rest|].
     + (* first next(): enter the context, compute the frames for the CURRENT length *)
-      destruct (acquire_inv s 0 None HI) as (I1 & C1 & O1 & G1 & X1 & D1 & L1).
+      destruct (acquire_inv s 0 HI) as (I1 & C1 & G1 & X1 & D1 & L1).
       destruct (acquire s) as [m s1]. cbn [fst snd] in *.
       assert (N1: nth_error (sc_gens s1) g = Some (GNew (c, so, sto, eno, fl))) by (rewrite G1; exact En).
       destruct (iterindices (sc_len s1) c so sto eno fl) as [frames|e].
       * apply advance_safe.
-        -- exact (activate_inv s1 0 None g _ m frames I1 N1 O1).
+        -- exact (activate_inv s1 0 g _ frames I1 N1).
         -- cbn [set_gens sc_gens]. exact (nth_replace_same _ _ _ _ N1).
-      * cbn [fst snd]. split; [|discriminate]. apply release_inv. exact (newdone_inv s1 1 None g _ I1 N1).
-    + exact (advance_safe s g m rest HI En).
+      * cbn [fst snd]. split; [|discriminate]. apply release_inv. exact (newdone_inv s1 1 g _ I1 N1).
+    + exact (advance_safe s g rest HI En).
     + cbn [fst snd]. split; [exact HI|discriminate].
   - (* close *)
-    destruct (nth_error (sc_gens s) g) as [[pr|m rest|]|] eqn:En; cbn [fst snd]; (split; [|discriminate]); try exact HI.
-    + exact (newdone_inv s 0 None g pr HI En).
-    + exact (finish_inv s g m rest HI En).
+    destruct (nth_error (sc_gens s) g) as [[pr|rest|]|] eqn:En; cbn [fst snd]; (split; [|discriminate]); try exact HI.
+    + exact (newdone_inv s 0 g pr HI En).
+    + exact (finish_inv s g rest HI En).
   - (* enter a context *)
-    destruct (acquire_inv s 0 None HI) as (I1 & C1 & O1 & G1 & X1 & D1 & L1).
-    destruct (acquire s) as [m s1]. cbn [fst snd] in *. split; [|discriminate]. exact (ctx_push s1 0 None m I1).
+    destruct (acquire_inv s 0 HI) as (I1 & C1 & G1 & X1 & D1 & L1).
+    destruct (acquire s) as [m s1]. cbn [fst snd] in *. split; [|discriminate]. exact (ctx_push s1 0 m I1).
   - (* exit *)
     destruct (sc_ctx s) as [|m rest] eqn:Ectx; cbn [fst snd]; (split; [|discriminate]); [exact HI|].
-    apply release_inv. exact (ctx_pop s 0 None m rest HI Ectx).
+    apply release_inv. exact (ctx_pop s 0 m rest HI Ectx).
   - (* read an element *)
-    destruct (acquire_inv s 0 None HI) as (I1 & C1 & O1 & G1 & X1 & D1 & L1).
-    destruct (acquire s) as [m s1]. cbn [fst snd] in *. rewrite (mem_in _ _ O1). cbn [fst snd]. split; [|discriminate].
-    apply release_inv. exact I1.
+    pose proof (acquired_cached s 0 HI) as Hc. destruct (acquire_inv s 0 HI) as (I1 & C1 & G1 & X1 & D1 & L1).
+    destruct (acquire s) as [m s1]. cbn [fst snd] in *. rewrite (read_ok_inv s1 1 _ I1 Hc). cbn [fst snd].
+    split; [|discriminate]. apply release_inv. exact I1.
   - (* write an element *)
-    destruct (acquire_inv s 0 None HI) as (I1 & C1 & O1 & G1 & X1 & D1 & L1).
-    destruct (acquire s) as [m s1]. cbn [fst snd] in *. rewrite (mem_in _ _ O1). cbn [fst snd]. split; [|discriminate].
-    apply release_inv. apply data_inv. exact I1.
+    pose proof (acquired_cached s 0 HI) as Hc. destruct (acquire_inv s 0 HI) as (I1 & C1 & G1 & X1 & D1 & L1).
+    destruct (acquire s) as [m s1]. cbn [fst snd] in *. rewrite (read_ok_inv s1 1 _ I1 Hc). cbn [fst snd].
+    split; [|discriminate]. apply release_inv. apply data_inv. exact I1.
   - (* an access for which NumPy raises *)
-    destruct (acquire_inv s 0 None HI) as (I1 & C1 & O1 & G1 & X1 & D1 & L1).
+    destruct (acquire_inv s 0 HI) as (I1 & C1 & G1 & X1 & D1 & L1).
     destruct (acquire s) as [m s1]. cbn [fst snd] in *. split; [|discriminate]. apply release_inv. exact I1.
-  - (* the length changes: the shared map is renewed *)
-    destruct HI as (Hu & Hg & Hc & Hl). destruct (sc_cache s) as [m|] eqn:Ec; cbn [fst snd]; (split; [|discriminate]).
-    + destruct Hc as [Hp Hin]. unfold SInv, SInvX. cbn [sc_users sc_gens sc_ctx sc_open sc_cache]. repeat split.
-      * exact Hu.
-      * apply Forall_forall. intros g Hgin. rewrite Forall_forall in Hg. specialize (Hg g Hgin).
-        destruct g as [fr|m' r|]; cbn in *; auto. right.
-        destruct (held m (sc_gens s)) eqn:Eh; [exact Hg|]. apply in_remove. split; [exact Hg|]. intros ->.
-        rewrite (held_in _ _ _ Hgin) in Eh. discriminate.
-      * exact Hp.
-      * left. reflexivity.
-      * intros x [<-|Hx]; [right; left; reflexivity|]. right; right.
-        destruct (held m (sc_gens s)) eqn:Eh.
-        -- destruct (Hl x Hx) as [A|[A|A]]; [discriminate|injection A as <-; exact Eh|exact A].
-        -- apply in_remove in Hx. destruct Hx as [Hx Hn]. destruct (Hl x Hx) as [A|[A|A]]; [discriminate|congruence|exact A].
-    + unfold SInv, SInvX. cbn [sc_users sc_gens sc_ctx sc_open sc_cache]. repeat split; assumption.
+  - (* the length changes: the shared map is renewed at the new length, the old one is closed *)
+    destruct HI as (Hu & Hc). destruct (sc_cache s) as [m|] eqn:Ec; cbn [fst snd]; (split; [|discriminate]).
+    + destruct Hc as [Hp Ho]. unfold SInv, SInvX. cbn [sc_users sc_gens sc_ctx sc_open sc_cache sc_len].
+      split; [exact Hu|]. split; [exact Hp|]. rewrite Ho, remove_single. reflexivity.
+    + unfold SInv, SInvX. cbn [sc_users sc_gens sc_ctx sc_open sc_cache sc_len]. split; assumption.
   - (* the data file cannot be opened *)
     destruct (sc_cache s) as [c|] eqn:Ec; [|cbn [fst snd]; split; [exact HI|discriminate]].
-    destruct (acquire_inv s 0 None HI) as (I1 & C1 & O1 & G1 & X1 & D1 & L1).
-    destruct (acquire s) as [m s1]. cbn [fst snd] in *. rewrite (mem_in _ _ O1). cbn [fst snd]. split; [|discriminate].
-    apply release_inv. exact I1.
+    pose proof (acquired_cached s 0 HI) as Hc. destruct (acquire_inv s 0 HI) as (I1 & C1 & G1 & X1 & D1 & L1).
+    destruct (acquire s) as [m s1]. cbn [fst snd] in *. rewrite (read_ok_inv s1 1 _ I1 Hc). cbn [fst snd].
+    split; [|discriminate]. apply release_inv. exact I1.
 Qed.
 
 Theorem sched_run_safe : forall acts s, SInv s ->
@@ -349,27 +235,21 @@ Proof.
 Qed.
 
 Lemma sinv_init : forall n k, SInv (sched_init n k).
-Proof.
-  intros. unfold SInv, SInvX, sched_init. cbn.
-  split; [reflexivity|split; [constructor|split; [reflexivity|intros m H; destruct H]]].
-Qed.
+Proof. intros. unfold SInv, SInvX, sched_init. cbn. repeat split. Qed.
 
 (* when all generators and contexts are finished no map / file handle remains open *)
 Theorem no_leak : forall s, SInv s -> count_active (sc_gens s) = 0%nat -> sc_ctx s = [] ->
   sc_cache s = None /\ sc_open s = [] /\ sc_users s = 0%nat.
 Proof.
-  intros s (Hu & Hg & Hc & Hl) Hcnt Hx. rewrite Hcnt, Hx in Hu. cbn in Hu.
-  destruct (sc_cache s) as [m|] eqn:Ec; [destruct Hc; lia|]. repeat split; try assumption.
-  destruct (sc_open s) as [|x o]; [reflexivity|]. exfalso.
-  destruct (Hl x (or_introl eq_refl)) as [A|[A|A]]; try discriminate.
-  pose proof (held_count _ _ A). lia.
+  intros s (Hu & Hc) Hcnt Hx. rewrite Hcnt, Hx in Hu. cbn in Hu.
+  destruct (sc_cache s) as [m|] eqn:Ec; [destruct Hc; lia|]. destruct Hc. repeat split; assumption.
 Qed.
 
 (* the element / chunk accesses used by the property files *)
 Lemma acquire_spec : forall s, SInv s ->
   sc_gens (snd (acquire s)) = sc_gens s /\ sc_ctx (snd (acquire s)) = sc_ctx s /\
-  sc_data (snd (acquire s)) = sc_data s /\ mem_nat (fst (acquire s)) (sc_open (snd (acquire s))) = true.
+  sc_data (snd (acquire s)) = sc_data s /\ forall hi, read_ok (snd (acquire s)) hi = true.
 Proof.
-  intros s HI. destruct (acquire_inv s 0 None HI) as (I1 & C1 & O1 & G1 & X1 & D1 & L1).
-  repeat split; try assumption. apply mem_in. exact O1.
+  intros s HI. pose proof (acquired_cached s 0 HI) as Hc. destruct (acquire_inv s 0 HI) as (I1 & C1 & G1 & X1 & D1 & L1).
+  repeat split; try assumption. intros hi. exact (read_ok_inv _ 1 hi I1 Hc).
 Qed.
